@@ -12,6 +12,35 @@ def rval(rng):
     return rng.choice(BOUND) if rng.random() < 0.5 else rng.randrange(128)
 
 
+EXTREME = [127, 127, 127, 126, 120, 119, 100, 64, 10, 8, 7, 1, 0, 0]
+
+
+def extreme_values(rng, kind, n_events, to=5, first_id=60):
+    """Histories that stay on the contributing controllers of one or two channels with data bytes at the
+    top and bottom of the range: carries, clamps and wrap-arounds of 7/14-bit arithmetic on values
+    (value MSB 127 with LSB 127, increments on top of it, numbers 16383 / 0) show here or nowhere."""
+    out = []
+    left = n_events
+    while left > 0:
+        out.append({"op": "new", "id": first_id, "k": kind, "to": to if kind == "poll" else 0})
+        chans = rng.sample(range(16), rng.choice([1, 2]))
+        for _ in range(min(left, 400)):
+            c = rng.choice(chans)
+            r = rng.random()
+            if kind == "cc14":
+                n = rng.choice([0, 1, 31])
+                m = [176 + c, n if r < 0.45 else n + 32, rng.choice(EXTREME)]
+            else:
+                cn = rng.choice([6, 6, 38, 38, 96, 97, 96, 97]) if r < 0.8 else rng.choice([98, 99, 100, 101])
+                m = [176 + c, cn, rng.choice(EXTREME)]
+            out.append({"op": "feed", "id": first_id, "m": m, "f": impl(rng)})
+            if kind == "poll" and rng.random() < 0.25:
+                out.append({"op": "tick", "id": first_id, "dt": rng.choice([0, 1, to, to + 1])})
+                out.append({"op": "poll", "id": first_id, "ch": c})
+        left -= 400
+    return out
+
+
 class Traffic:
     """Random short-message traffic for one scanner kind."""
 
@@ -763,10 +792,20 @@ def far_times(rng, n_segments, seg=120, first_id=950, timeouts=(1, 5, 10, 1000),
             out.append(tick(iid, gap))
         for _ in range(seg):
             r = rng.random()
-            if r < 0.55:
+            if r < 0.50:
                 out.append({"op": "feed", "id": iid, "m": tr.msg(), "f": impl(rng)})
-            elif r < 0.75:
+            elif r < 0.70:
                 out.append({"op": "poll", "id": iid, "ch": rng.choice(chans)})
+            elif r < 0.78:
+                # C12 ('consequently'): a real encoding, wait, poll - reports exactly that message
+                msg = rand_pn_msg(rng)
+                msg[0] = rng.choice(chans)
+                ord_ = rng.choice(["msb", "lsb"])
+                nbytes = 4 if msg[4] == 1 else 3
+                out.append({"op": "encpn", "id": iid, "msg": msg, "ord": ord_, "gk": "rtp", "more": 1})
+                out.append(tick(iid, to + rng.choice([0, 1, 3, 20])))
+                out.append({"op": "poll", "id": iid, "ch": msg[0],
+                            "grp": {"k": "rtp", "i": nbytes + 1, "n": nbytes + 1, "msg": msg, "ord": ord_}})
             else:
                 out.append(tick(iid, rng.choice([0, 1, 1, 2, to - 1 if to > 1 else 1, to, to + 1, 2 * to, 7])))
     return out
@@ -810,4 +849,49 @@ def far_times_twin(rng, n_segments, base_id=970, timeouts=(1, 5, 10)):
         out.append(tick(-1, to + 1))
         poll(a)
         poll(b)
+    return out
+
+
+# ----------------------------------------------------------------------------- copies
+
+def copy_battery(rng, kind, to, base_id=990):
+    """C17 (copies): in states with partial progress - also with a value that is already overdue - a
+    copy made by `Clone::clone` and one made by the bitwise `Copy` equal the original, report what the
+    original reports from then on, and do not disturb it."""
+    out = []
+    a, b, c = base_id, base_id + 1, base_id + 2
+    ch = rng.randrange(16)
+    if kind == "cc14":
+        prefixes = [[], [[176 + ch, 7, 100]], [[176 + ch, 7, 100], [176 + ch, 39, 1]], [[176 + ch, 39, 1]]]
+        post = [[176 + ch, 39, 5], [176 + ch, 7, 3], [176 + ch, 39, 6]]
+    else:
+        x, y = [176 + ch, 101, 3], [176 + ch, 100, 36]
+        prefixes = [[], [x], [y], [x, y], [x, y, [176 + ch, 6, 126]], [x, y, [176 + ch, 38, 24]],
+                    [x, y, [176 + ch, 6, 1], [176 + ch, 38, 2]], [x, y, [176 + ch, 96, 1]]]
+        post = [[176 + ch, 38, 9], [176 + ch, 6, 77], [176 + ch, 38, 10], [176 + ch, 97, 1]]
+    waits = [0] if kind != "poll" else ([0, 1, 1000] if to < 0 else sorted({0, 1, max(to - 1, 0), to, to + 1, 10 * to + 1}))
+    for pre in prefixes:
+        for wait in waits:
+            for via in ("clone", "copy"):
+                out.append({"op": "new", "id": a, "k": kind, "to": to})
+                for m in pre:
+                    out.append({"op": "feed", "id": a, "m": m})
+                if wait:
+                    out.append({"op": "tick", "id": -1, "dt": wait})
+                out.append({"op": "copy", "id": a, "to2": b, "via": via})
+                out.append({"op": "eq", "id": a, "b": b, "xe": True, "xp": "C17"})
+                out.append({"op": "copy", "id": a, "to2": c, "via": via})
+                if kind == "poll":
+                    out.append({"op": "poll", "id": a, "ch": ch})
+                    out.append({"op": "poll", "id": b, "ch": ch, "tw": 1, "twp": "C17"})
+                for m in post:
+                    out.append({"op": "feed", "id": a, "m": m})
+                    out.append({"op": "feed", "id": b, "m": m, "tw": 1, "twp": "C17"})
+                if kind == "poll":
+                    out.append({"op": "tick", "id": -1, "dt": max(to, 0) + 1})
+                    out.append({"op": "poll", "id": a, "ch": ch})
+                    out.append({"op": "poll", "id": b, "ch": ch, "tw": 1, "twp": "C17"})
+                # the second copy stayed behind: moving it now is judged by the monitors like any other call
+                if kind == "poll":
+                    out.append({"op": "poll", "id": c, "ch": ch})
     return out
